@@ -1,6 +1,7 @@
 import BtcwVerif.Lemmas.KMap
 import BtcwVerif.Lemmas.Balance
 import BtcwVerif.Lemmas.Calls
+import BtcwVerif.Model.Ledger
 /-!
 # C12 — a leased output stays out of reach until released or expired
 
@@ -417,6 +418,316 @@ theorem C12_subsecond_lease_example :
       lockOutput s' 1999999999 2 ⟨7, 0⟩ 1000000000 = .error Err.alreadyLocked ∧
       isLocked s' ⟨7, 0⟩ 2000000000 = false := by
   refine ⟨_, rfl, ?_, ?_, ?_⟩ <;> decide
+
+/-! ### refinement of the lease events: the store's lease bucket implements the `Ledger`'s leases
+
+`LeaseRefines s L`: the lease bucket and `L.leases` agree pointwise (the ledger keeps the instant handed to the caller
+in ns, the store whole seconds), and the store knows exactly the outputs the ledger allows to lease.  The four lease
+events (*lease*, *release*, *sweep*, *clock*) preserve the relation, and the lease queries agree.
+`_partial`: that the chain events (*seen*, *confirmed*, *disconnected*, *abandoned*) preserve the `known` clause is
+part of the full refinement `step_repr`, which is not proved (run-time checked by `spec probe`). -/
+
+theorem find?_filter_ne {α : Type} (l : List (OutPoint × α)) (op op' : OutPoint) :
+    (l.filter fun p => p.1 != op).find? (fun p => p.1 == op') =
+      if op' = op then none else l.find? (fun p => p.1 == op') := by
+  induction l with
+  | nil => simp
+  | cons p t ih =>
+    by_cases h1 : p.1 = op
+    · have hf : (p.1 != op) = false := by simp [h1]
+      rw [List.filter_cons, hf]
+      simp only [Bool.false_eq_true, if_false]
+      rw [ih]
+      by_cases h2 : op' = op
+      · simp [h2]
+      · have h3 : (p.1 == op') = false := by rw [h1]; simpa using fun e => h2 e.symm
+        simp [h2, List.find?_cons, h3]
+    · have hf : (p.1 != op) = true := by simpa using h1
+      rw [List.filter_cons, hf]
+      simp only [if_true, List.find?_cons]
+      by_cases h3 : (p.1 == op') = true
+      · have : p.1 = op' := by simpa using h3
+        have h2 : ¬ op' = op := by rw [← this]; exact h1
+        simp [h3, h2]
+      · have h3' : (p.1 == op') = false := by simpa using h3
+        simp only [h3']
+        exact ih
+
+theorem lookup_filter_ne {α : Type} (l : List (OutPoint × α)) (op op' : OutPoint) :
+    Ledger.lookup (l.filter fun p => p.1 != op) op' = if op' = op then none else Ledger.lookup l op' := by
+  unfold Ledger.lookup
+  rw [find?_filter_ne]
+  by_cases h : op' = op <;> simp [h]
+
+open Ledger in
+theorem lookup_append_single {α : Type} (l : List (OutPoint × α)) (op op' : OutPoint) (x : α) :
+    Ledger.lookup (l ++ [(op, x)]) op' =
+      match Ledger.lookup l op' with
+      | some y => some y
+      | none => if op' = op then some x else none := by
+  unfold Ledger.lookup
+  induction l with
+  | nil =>
+    by_cases h : op' = op
+    · subst h; simp
+    · have : (op == op') = false := by simpa using fun e => h e.symm
+      simp [List.find?_cons, this, h]
+  | cons p t ih =>
+    simp only [List.cons_append, List.find?_cons]
+    by_cases h3 : (p.1 == op') = true
+    · simp [h3]
+    · simp only [h3, Bool.false_eq_true]
+      exact ih
+
+structure LeaseRefines (s : Store) (L : Ledger.Ledger) : Prop where
+  known : ∀ op, isKnownOutput s op = Ledger.leasable L op
+  leases : ∀ op, (s.locked.find? op).map (fun l => (l.id, l.expiry * 1000000000)) =
+    (Ledger.lookup L.leases op).map (fun l => (l.id, l.expiry))
+
+theorem leaseOf_refines {s : Store} {L : Ledger.Ledger} (h : LeaseRefines s L) (op : OutPoint) :
+    (isLockedOutput s op L.now).map (fun l => (l.id, l.expiry * 1000000000)) =
+      (Ledger.leaseOf L op).map (fun l => (l.id, l.expiry)) := by
+  have := h.leases op
+  unfold Ledger.leaseOf
+  rw [isLockedOutput_eq]
+  cases h1 : s.locked.find? op with
+  | none =>
+    rw [h1] at this
+    cases h2 : Ledger.lookup L.leases op with
+    | none => rfl
+    | some l' => rw [h2] at this; cases this
+  | some l =>
+    rw [h1] at this
+    cases h2 : Ledger.lookup L.leases op with
+    | none => rw [h2] at this; cases this
+    | some l' =>
+      rw [h2] at this
+      simp only [Option.map_some, Option.some.injEq, Prod.mk.injEq] at this
+      simp only
+      rw [← this.2]
+      by_cases hc : (L.now : Int) < l.expiry * 1000000000
+      · simp [hc, this.1, this.2]
+      · simp [hc]
+
+private theorem leasable_leases (L : Ledger.Ledger) (ls : List (OutPoint × Ledger.Lease)) (op : OutPoint) :
+    Ledger.leasable { L with leases := ls } op = Ledger.leasable L op := rfl
+
+/-- **lease** refines: `LockOutput` at the ledger's clock does to the bucket what `Ledger.apply (.lease …)` does to
+the ledger's leases (refused for unknown outputs and for outputs held by another id, granted/extended otherwise, the
+stored seconds being exactly the granted instant) -/
+theorem C12_lease_refines_partial (s : Store) (L : Ledger.Ledger) (id : Nat) (op : OutPoint) (d : Int)
+    (h : LeaseRefines s L) :
+    LeaseRefines (match lockOutput s L.now id op d with | .ok (_, s') => s' | .error _ => s)
+      (Ledger.apply L (.lease id op d)) := by
+  have hk := h.known op
+  have hl := leaseOf_refines h op
+  unfold Ledger.apply
+  by_cases hkn : isKnownOutput s op = true
+  · have hkl : Ledger.leasable L op = true := by rw [← hk]; exact hkn
+    simp only [hkl, Bool.not_true, Bool.false_eq_true, if_false]
+    -- the new relation once the lease is written
+    have hnew : LeaseRefines { s with locked := s.locked.insert op ⟨id, unixSeconds (grantedExpiry L.now d)⟩ }
+        { L with leases := (L.leases.filter fun p => p.1 != op) ++ [(op, ⟨id, grantedExpiry L.now d⟩)] } := by
+      refine ⟨fun op' => h.known op', ?_⟩
+      intro op'
+      show ((s.locked.insert op _).find? op').map _ = _
+      rw [find?_insert, lookup_append_single, lookup_filter_ne]
+      by_cases e : op = op'
+      · subst e
+        simp only [if_true, Option.map_some]
+        rw [C12_expiry_exact]
+      · have e' : ¬ op' = op := fun x => e x.symm
+        simp only [e, e', if_false]
+        have := h.leases op'
+        cases h2 : Ledger.lookup L.leases op' with
+        | none => rw [h2] at this; simpa using this
+        | some y => rw [h2] at this; simpa using this
+    cases h1 : isLockedOutput s op L.now with
+    | none =>
+      rw [h1] at hl
+      have h2 : Ledger.leaseOf L op = none := by
+        cases hx : Ledger.leaseOf L op with
+        | none => rfl
+        | some y => rw [hx] at hl; cases hl
+      simp only [h2]
+      have : lockOutput s L.now id op d = .ok (grantedExpiry L.now d,
+          { s with locked := s.locked.insert op ⟨id, unixSeconds (grantedExpiry L.now d)⟩ }) := by
+        simp [lockOutput, hkn, h1]
+      rw [this]; exact hnew
+    | some l =>
+      rw [h1] at hl
+      cases hx : Ledger.leaseOf L op with
+      | none => rw [hx] at hl; cases hl
+      | some l' =>
+        rw [hx] at hl
+        simp only [Option.map_some, Option.some.injEq, Prod.mk.injEq] at hl
+        simp only
+        by_cases hid : l.id = id
+        · have hid' : l'.id = id := by rw [← hl.1]; exact hid
+          have : lockOutput s L.now id op d = .ok (grantedExpiry L.now d,
+              { s with locked := s.locked.insert op ⟨id, unixSeconds (grantedExpiry L.now d)⟩ }) := by
+            simp [lockOutput, hkn, h1, hid]
+          rw [this]
+          simp only [hid', ne_eq, not_true_eq_false, if_false]
+          exact hnew
+        · have hid' : l'.id ≠ id := by rw [← hl.1]; exact hid
+          have : lockOutput s L.now id op d = .error Err.alreadyLocked := by
+            simp [lockOutput, hkn, h1, hid]
+          rw [this]
+          simp only [hid', ne_eq, not_false_eq_true, if_true]
+          exact h
+  · have hkn' : isKnownOutput s op = false := by simpa using hkn
+    have hkl : Ledger.leasable L op = false := by rw [← hk]; exact hkn'
+    have : lockOutput s L.now id op d = .error Err.unknownOutput := by simp [lockOutput, hkn']
+    rw [this]
+    simp only [hkl, Bool.not_false, if_true]
+    exact h
+
+/-- **release** refines -/
+theorem C12_release_refines_partial (s : Store) (L : Ledger.Ledger) (id : Nat) (op : OutPoint)
+    (h : LeaseRefines s L) :
+    LeaseRefines (match unlockOutput s L.now id op with | .ok s' => s' | .error _ => s)
+      (Ledger.apply L (.release id op)) := by
+  have hk := h.known op
+  have hl := leaseOf_refines h op
+  unfold Ledger.apply
+  by_cases hkn : isKnownOutput s op = true
+  · have hkl : Ledger.leasable L op = true := by rw [← hk]; exact hkn
+    simp only [hkl, Bool.not_true, Bool.false_eq_true, if_false]
+    cases h1 : isLockedOutput s op L.now with
+    | none =>
+      rw [h1] at hl
+      have h2 : Ledger.leaseOf L op = none := by
+        cases hx : Ledger.leaseOf L op with
+        | none => rfl
+        | some y => rw [hx] at hl; cases hl
+      simp only [h2]
+      have : unlockOutput s L.now id op = .ok s := by simp [unlockOutput, hkn, h1]
+      rw [this]; exact h
+    | some l =>
+      rw [h1] at hl
+      cases hx : Ledger.leaseOf L op with
+      | none => rw [hx] at hl; cases hl
+      | some l' =>
+        rw [hx] at hl
+        simp only [Option.map_some, Option.some.injEq, Prod.mk.injEq] at hl
+        simp only
+        by_cases hid : l.id = id
+        · have hid' : l'.id = id := by rw [← hl.1]; exact hid
+          have : unlockOutput s L.now id op = .ok (unlockOutputRaw s op) := by
+            simp [unlockOutput, hkn, h1, hid]
+          rw [this]
+          simp only [hid', ne_eq, not_true_eq_false, if_false]
+          refine ⟨fun op' => h.known op', ?_⟩
+          intro op'
+          show ((s.locked.erase op).find? op').map _ = _
+          rw [find?_erase, lookup_filter_ne]
+          by_cases e : op = op'
+          · subst e; simp
+          · have e' : ¬ op' = op := fun x => e x.symm
+            simp only [e, e', if_false]
+            exact h.leases op'
+        · have hid' : l'.id ≠ id := by rw [← hl.1]; exact hid
+          have : unlockOutput s L.now id op = .error Err.unlockNotAllowed := by
+            simp [unlockOutput, hkn, h1, hid]
+          rw [this]
+          simp only [hid', ne_eq, not_false_eq_true, if_true]
+          exact h
+  · have hkn' : isKnownOutput s op = false := by simpa using hkn
+    have hkl : Ledger.leasable L op = false := by rw [← hk]; exact hkn'
+    have : unlockOutput s L.now id op = .error Err.unknownOutput := by simp [unlockOutput, hkn']
+    rw [this]
+    simp only [hkl, Bool.not_false, if_true]
+    exact h
+
+theorem lookup_none_of_not_mem {α : Type} (l : List (OutPoint × α)) (op : OutPoint) (h : op ∉ l.map (·.1)) :
+    Ledger.lookup l op = none := by
+  unfold Ledger.lookup
+  have : l.find? (fun p => p.1 == op) = none := by
+    rw [List.find?_eq_none]
+    intro p hp e
+    apply h
+    have : p.1 = op := by simpa using e
+    rw [← this]; exact List.mem_map.mpr ⟨p, hp, rfl⟩
+  rw [this]
+
+theorem lookup_filter_val {α : Type} (P : α → Bool) : ∀ (l : List (OutPoint × α)) (op : OutPoint),
+    (l.map (·.1)).Nodup →
+    Ledger.lookup (l.filter fun p => P p.2) op =
+      match Ledger.lookup l op with
+      | some x => if P x then some x else none
+      | none => none := by
+  intro l
+  induction l with
+  | nil => intro op _; rfl
+  | cons p t ih =>
+    intro op hn
+    rw [List.map_cons, List.nodup_cons] at hn
+    by_cases h3 : (p.1 == op) = true
+    · have hp : p.1 = op := by simpa using h3
+      have hl : Ledger.lookup (p :: t) op = some p.2 := by simp [Ledger.lookup, List.find?_cons, h3]
+      rw [hl]
+      by_cases hP : P p.2 = true
+      · simp [List.filter_cons, hP, Ledger.lookup, List.find?_cons, h3]
+      · simp only [List.filter_cons, hP, Bool.false_eq_true, if_false]
+        apply lookup_none_of_not_mem
+        intro hm
+        apply hn.1
+        rw [hp]
+        obtain ⟨q, hq, hqe⟩ := List.mem_map.mp hm
+        exact List.mem_map.mpr ⟨q, (List.mem_filter.mp hq).1, hqe⟩
+    · have h3' : (p.1 == op) = false := by simpa using h3
+      have hl : Ledger.lookup (p :: t) op = Ledger.lookup t op := by simp [Ledger.lookup, List.find?_cons, h3']
+      rw [hl, ← ih op hn.2]
+      by_cases hP : P p.2 = true
+      · simp [List.filter_cons, hP, Ledger.lookup, List.find?_cons, h3']
+      · simp [List.filter_cons, hP]
+
+/-- **sweep** refines: `DeleteExpiredLockedOutputs` removes from the bucket exactly the leases the ledger drops
+(keys of the bucket and of the ledger's lease list are unique) -/
+theorem C12_sweep_refines_partial (s : Store) (L : Ledger.Ledger) (h : LeaseRefines s L)
+    (hn : NodupKeys s.locked) (hnL : (L.leases.map (·.1)).Nodup) :
+    LeaseRefines (deleteExpiredLockedOutputs s L.now) (Ledger.apply L .sweep) := by
+  refine ⟨?_, ?_⟩
+  · intro op
+    have : isKnownOutput (deleteExpiredLockedOutputs s L.now) op = isKnownOutput s op := by
+      rw [C12_sweep_only_leases]; rfl
+    rw [this]; exact h.known op
+  · intro op
+    rw [C12_sweep_exact s L.now op hn]
+    show _ = (Ledger.lookup (L.leases.filter fun p => decide ((L.now : Int) < p.2.expiry)) op).map _
+    rw [lookup_filter_val (fun l : Ledger.Lease => decide ((L.now : Int) < l.expiry)) L.leases op hnL]
+    have := h.leases op
+    cases h1 : s.locked.find? op with
+    | none =>
+      rw [h1] at this
+      cases h2 : Ledger.lookup L.leases op with
+      | none => rfl
+      | some y => rw [h2] at this; cases this
+    | some l =>
+      rw [h1] at this
+      cases h2 : Ledger.lookup L.leases op with
+      | none => rw [h2] at this; cases this
+      | some y =>
+        rw [h2] at this
+        simp only [Option.map_some, Option.some.injEq, Prod.mk.injEq] at this
+        simp only
+        rw [← this.2]
+        by_cases hc : (L.now : Int) < l.expiry * 1000000000
+        · simp [hc, this.1, this.2]
+        · simp [hc]
+
+/-- **clock** refines (the store has no clock of its own: the relation does not mention it) -/
+theorem C12_clock_refines_partial (s : Store) (L : Ledger.Ledger) (t : Nat) (h : LeaseRefines s L) :
+    LeaseRefines s (Ledger.apply L (.clock t)) := ⟨fun op => h.known op, fun op => h.leases op⟩
+
+/-- **the lease queries agree**: an output is leased at the ledger's clock in the store iff it is in the ledger, under
+the same id and until the same instant — in particular at the boundary instant `now = expiry` both say free -/
+theorem C12_leased_refines_partial (s : Store) (L : Ledger.Ledger) (h : LeaseRefines s L) (op : OutPoint) :
+    isLocked s op L.now = Ledger.leased L op := by
+  have := leaseOf_refines h op
+  unfold isLocked Ledger.leased
+  cases h1 : isLockedOutput s op L.now <;> cases h2 : Ledger.leaseOf L op <;> simp_all
 
 /-! ### non-vacuity: the hypotheses of the theorems above are satisfiable on a concrete store -/
 
